@@ -29,8 +29,13 @@ RandCase(u) ==
   LET a == RandomElement(Types)  b == RandomElement(Types \ {"plane"}) IN
   [t1 |-> IF Order[a] <= Order[b] THEN a ELSE b, t2 |-> IF Order[a] <= Order[b] THEN b ELSE a, pose |-> PoseFor(a, b), g1 |-> Geom(1), g2 |-> Geom(2),
    explicit |-> RandomElement({FALSE, FALSE, FALSE, TRUE}), pair |-> [condim |-> RandomElement({1, 3, 4}), friction |-> RandomElement({5, 9}), margin |-> RandomElement({0, 6})]]
-Init == c = RandCase(0) /\ k = 1
-Next == k < NCase /\ c' = RandCase(k) /\ k' = k + 1
+\* Mode "enum": every type pair x every pose class once, with plain parameters (the replay draws several geometries for each): what a sample may miss
+G0 == [condim |-> 3, priority |-> 0, friction |-> 7, margin |-> 0, solmix |-> 1]
+EnumCases == {[t1 |-> a, t2 |-> b, pose |-> p, g1 |-> G0, g2 |-> G0, explicit |-> FALSE, pair |-> [condim |-> 3, friction |-> 5, margin |-> 0]] :
+                a \in Types, b \in Types \ {"plane"}, p \in Poses} 
+EnumOK(x) == Order[x.t1] <= Order[x.t2] /\ (x.pose = "engulfed" => ("sphere" \in {x.t1, x.t2} /\ "plane" \notin {x.t1, x.t2}))
+Init == IF Mode = "enum" THEN c \in {x \in EnumCases : EnumOK(x)} /\ k = 1 ELSE c = RandCase(0) /\ k = 1
+Next == Mode # "enum" /\ k < NCase /\ c' = RandCase(k) /\ k' = k + 1
 Spec == Init /\ [][Next]_vars
 Ordered == Order[c.t1] <= Order[c.t2]
 MixSymmetric == LET y == [c EXCEPT !.g1 = c.g2, !.g2 = c.g1] IN MixCondim(c) = MixCondim(y) /\ MixFriction(c) = MixFriction(y) /\ MixMargin(c) = MixMargin(y)
